@@ -88,8 +88,27 @@ def handle(job):
     p_s = rs.standard_normal(small).astype(np.float32)
     r_s1 = make_runner(opt, o_none, [small], seed, {"p0": jnp.asarray(p_s)})
     r_s2 = make_runner(opt, o_none, [small, shape], seed, {"p0": jnp.asarray(p_s), "p1": jnp.asarray(p_t)})
+    # ---- the same in sharded mode with low-rank compressed roots (every statistic is padded to the largest
+    #      one in the stacked global array; the padding must never reach the root of a smaller statistic) ----
+    sh_runs = None
+    if opt == "ds" and job.get("shard_leg"):
+      o_sh = dict(o_none, mode="shard", D=1, compression_rank=[1, -1][seed % 2], block_size=16)
+      s4, c8 = (4, 4), (8, 8)
+      p4 = rs.standard_normal(s4).astype(np.float32); p8 = rs.standard_normal(c8).astype(np.float32)
+      sh_runs = (make_runner(opt, o_sh, [s4], seed, {"p0": jnp.asarray(p4)}),
+                 make_runner(opt, o_sh, [s4, c8], seed, {"p0": jnp.asarray(p4), "p1": jnp.asarray(p8)}), s4, c8)
     for t in range(T):
       g = grads_t[t]
+      if sh_runs is not None:
+        ra, rb, s4, c8 = sh_runs
+        g4 = rs.standard_normal(s4).astype(np.float32); g8 = rs.standard_normal(c8).astype(np.float32)
+        ua = upd(opt, ra, ra.step({"p0": jnp.asarray(g4)}))["p0"]
+        ub = upd(opt, rb, rb.step({"p0": jnp.asarray(g4), "p1": jnp.asarray(g8)}))["p0"]
+        d = relb(ua, ub)
+        worst["companion_sharded_compressed"] = max(worst.get("companion_sharded_compressed", 0.0), d)
+        if not np.isfinite(d) or d > 1e-3:
+          mism.append({"clause": "sharded_compressed_parameter_depends_on_larger_companion", "step": t, "block": 0,
+                       "detail": d})
       gs = rs.standard_normal(small).astype(np.float32)
       u_s1 = upd(opt, r_s1, r_s1.step({"p0": jnp.asarray(gs)}))["p0"]
       u_s2 = upd(opt, r_s2, r_s2.step({"p0": jnp.asarray(gs), "p1": jnp.asarray(g)}))["p0"]
